@@ -24,7 +24,7 @@ SAFE_DTYPES = list(_SAFE)
 _COL_STRS = ['a', 'b', 'c', 'd', 'e', 'f', 'g', 'aa', 'ab', 'Bx', 'zz', 'cc', 'p', 'q', 'r', 's', 't', 'u', 'v', 'w']
 # ('j' alone is read back as the complex number 1j by the text parser: C16's ambiguity class, not generated)
 _ROW_STRS = ['x', 'y', 'z', 'k', 'm', 'n', 'xx', 'yy', 'K', 'row', 'o', 'h', 'ii', 'jk']
-_BUS_LABELS = ['f1', 'f2', 'alpha', 'b', 'Z', 'tab', 'g', 'mm', 'x9', 'c', 'data', 'q', 'h7', 'w']
+_BUS_LABELS = ['f1', 'f2', 'alpha', 'b', 'Z', 'tab', 'g', 'mm', 'x9', 'c', 'data', 'q', 'h7', 'w', 'v1.0', 'eur.rates', 'a b', 'x-y', 'k_1']
 
 
 def _tree2(n, rng):
